@@ -188,6 +188,8 @@ def main(argv=None):
         tail = "" if v.get("replayed") else " no-failing-input-found"
         lines.append("VIOLATION property=%s replay=%s%s" % (prop, os.path.join(VERIF, path), tail))
         lines.append("  obligation=%s" % v["obligation"])
+        if v.get("exception"):
+            lines.append("  exception=%s" % v["exception"])
         exit_code = 1
     for u in undecided:
         lines.append("UNDECIDED property=%s obligation=%s reason=%s" % (prop, u["obligation"], u["reason"][:300]))
